@@ -43,6 +43,14 @@ CLAIMS = {
         "array length and state. Bounded native probe covers float behaviour incl. constant arrays.",
    note="trusted: pyvc engine, numpy axioms (around half-even, clip, mean/std as Sum terms, ptp); reals for floats (zero-variance in floats is bounded-probe only)",
    technique="contract-based deductive verification (AST->z3/cvc5 VCs, two-state class invariant with ghost state, lemmas); bounded native replay"),
+ 'C10': dict(cat='proof', ref='DESIGN.md 2/C10',
+   text="DataStream.get_samples/_update_t/add_* and Antenna are executed symbolically from the real source: sample k sits at t_start+k/sample_rate, "
+        "the sum of noise (ghost generator stream), chirp closed form and custom (incl. complex) sources is proved at a symbolic sample, three "
+        "consecutive requests of symbolic sizes equal the one-shot request segment by segment (same clock, same generator position), clock "
+        "setters and update_noise restore/move the clock exactly, an antenna stacks x,y and keeps its clock equal to its streams'. "
+        "Known finding F1 (two noise sources on one stream) is reported, not suppressed for other inputs.",
+   note="trusted: pyvc engine; numpy Generator stream-splitting axiom (probed natively); real-mode time grid; cos uninterpreted; source loops unrolled for 2 noise + 3 signal sources",
+   technique="contract-based deductive verification (AST->z3 VCs with ghost generator stream); bounded native replay"),
 }
 NA_REASON = "not yet built in this session (see DESIGN.md build order)"
 
